@@ -10,6 +10,9 @@
 #include <cppcms/cppcms_error.h>
 #include "session_memory_storage.h"
 #include "session_posix_file_storage.h"
+#include "session_tcp_storage.h"
+#include "tcp_cache_server.h"
+#include "base_cache.h"
 #include <thread>
 #include <memory>
 #include "../sim/runner.h"
@@ -69,6 +72,7 @@ struct MSession {
 int mode_of(const std::string &s){ return s == "fixed" ? 0 : s == "renew" ? 1 : 2; }   // session_interface::fixed/renew/browser
 
 struct E5 : Engine {
+	bool fork_per_run(const J &plan) override { return plan.gets("prop") == "C06" && plan.gets("storage") == "network" && plan.gets("location") != "client"; }   // a storage server with its own threads
 	// ------------------------------------------------------------ generation
 	J generate(uint64_t seed,const std::string &prop,bool thorough) override {
 		simk::Rng r; r.seed(seed);
@@ -87,8 +91,8 @@ struct E5 : Engine {
 			return p;
 		}
 		// C06
-		static const char *locs[] = {"client","server","both"}; static const char *exps[] = {"fixed","renew","browser"}; static const char *stors[] = {"memory","files"};
-		p["location"] = locs[r.below(3)]; p["expire"] = exps[r.below(3)]; p["storage"] = stors[r.below(2)]; p["enc"] = encs[r.below(13)]; p["key_seed"] = (int)r.below(1000);
+		static const char *locs[] = {"client","server","both"}; static const char *exps[] = {"fixed","renew","browser"}; static const char *stors[] = {"memory","files","memory","files","network"};
+		p["location"] = locs[r.below(3)]; p["expire"] = exps[r.below(3)]; p["storage"] = stors[r.below(5)]; p["enc"] = encs[r.below(13)]; p["key_seed"] = (int)r.below(1000);
 		p["timeout"] = 5 + (int)r.below(r.below(2) ? 40 : 4000); p["client_size_limit"] = (int)(r.below(2) ? 30 + r.below(200) : 2048); p["remove_unknown"] = (int)r.below(2);
 		p["p_file_short"] = r.below(4) == 0 ? (int)r.below(300) : 0; p["p_file_eintr"] = r.below(4) == 0 ? (int)r.below(100) : 0;
 		int nb = 1 + r.below(3); p["browsers"] = nb; p["conc"] = (int)(nb > 1 && r.below(3) == 0); p["strategy"] = (int)r.below(3); p["pct_depth"] = 1 + (int)r.below(3); p["pct_len"] = 50 + (int)r.below(2000);
@@ -206,10 +210,17 @@ struct E5 : Engine {
 		cppcms::json::value v = settings(plan,location);
 		std::string stor = plan.gets("storage","memory");
 		std::vector<std::string> bad_sids; std::set<std::string> live_sids; uint64_t storage_calls = 0;
+		std::unique_ptr<cppcms::impl::tcp_cache_service> net_server;   // declared before the pool: destroyed after it
 		cppcms::session_pool pool(v);
 		SpyFactory *spyf = nullptr;
 		if(location != "client"){ std::unique_ptr<SpyFactory> f(new SpyFactory);
-			if(stor == "files"){ simk::fs_mkdir("/simfs/sessions"); f->inner.reset(new cppcms::sessions::session_file_storage_factory("/simfs/sessions",5,1,false)); } else f->inner.reset(new cppcms::sessions::session_memory_storage_factory());
+			if(stor == "files"){ simk::fs_mkdir("/simfs/sessions"); f->inner.reset(new cppcms::sessions::session_file_storage_factory("/simfs/sessions",5,1,false)); }
+			else if(stor == "network"){
+				// a real session storage server (tcp_cache_service with a memory storage behind it) on the simulated network
+				booster::shared_ptr<cppcms::sessions::session_storage_factory> backend(new cppcms::sessions::session_memory_storage_factory());
+				net_server.reset(new cppcms::impl::tcp_cache_service(booster::intrusive_ptr<cppcms::impl::base_cache>(),backend,1,"127.0.0.1",6101,1000000));
+				std::vector<std::string> ips(1,"127.0.0.1"); std::vector<int> ports(1,6101); f->inner.reset(new cppcms::sessions::tcp_factory(ips,ports)); cnt["network_storage_runs"]++; }
+			else f->inner.reset(new cppcms::sessions::session_memory_storage_factory());
 			f->spy.reset(new SpyStorage); f->spy->inner = f->inner->get(); f->spy->bad = &bad_sids; f->spy->live = &live_sids; f->spy->calls = &storage_calls; spyf = f.get();
 			pool.storage(std::unique_ptr<cppcms::sessions::session_storage_factory>(f.release())); }
 		pool.init();
